@@ -84,6 +84,11 @@ def quick_deviations():
     # re-entrant wall: the outermost SOL surfaces of the outer lower leg meet the baffle first
     out.append(mk("lsn", False, wall="W7", opt=dict(nx_sol=3, psinorm_sol=1.3), tags=["wall"]))
     out.append(mk("usn", False, wall="W7m", opt=dict(nx_sol=3, psinorm_sol=1.3), tags=["wall"]))
+    # a grid written after "geometry(), redistributePoints(), geometry()" on one mesh (the GUI's
+    # write - regrid - write loop) and one after a plain redistribution
+    out.append(mk("lsn", False, geometry_first=True, tags=["history"],
+                  post=[dict(nonorthogonal_xpoint_poloidal_spacing_length__times=0.4,
+                             nonorthogonal_target_all_poloidal_spacing_range__times=2.0)]))
     # slanted targets without boundary guard cells (contours must be extended to reach the wall)
     out.append(mk("lsn", False, wall="W6", opt=dict(y_boundary_guards=0), tags=["wall", "guards"]))
     out.append(mk("cdn", False, wall="W2", opt=dict(y_boundary_guards=0), tags=["wall", "guards"]))
@@ -118,6 +123,9 @@ def quick_deviations():
     out.append(mk("lsn", True, profile_ext=True, fpol="quad", tags=["profiles"]))
     out.append(mk("ldn", True, profile_ext=True, fpol="quad", tags=["profiles"]))
     out.append(mk("lsn", False, profile_ext=True, fpol="quad", tags=["profiles"]))
+    # extrapolate_profiles: the SOL lies beyond the end of the profile grid
+    out.append(mk("lsn", True, extrapolate_to=1.12, fpol="quad", tags=["profiles"]))
+    out.append(mk("udn", True, extrapolate_to=1.12, fpol="linear", sigma=-1.0, tags=["profiles", "sigma"]))
     # through the geqdsk path
     out.append(mk("lsn", True, via="gfile", tags=["gfile"]))
     # x-y derivative curvature
